@@ -323,9 +323,9 @@ func (g *gen) field(fieldName string, fieldType types.Type) (string, error) {
 		case types.Uint64:
 			return fmt.Sprintf("%s", fieldName), nil
 		case types.Float32:
-			return fmt.Sprintf("uint64(%s.Float32bits(%s+0))", g.mathPkg(), fieldName), nil
+			return fmt.Sprintf("uint64(%s.Float32bits(float32(%s)+0))", g.mathPkg(), fieldName), nil
 		case types.Float64:
-			return fmt.Sprintf("%s.Float64bits(%s+0)", g.mathPkg(), fieldName), nil
+			return fmt.Sprintf("%s.Float64bits(float64(%s)+0)", g.mathPkg(), fieldName), nil
 		case types.Complex64:
 			return fmt.Sprintf("(31 * ((31 * 17) + uint64(%s.Float32bits(real(%s)+0)))) + uint64(%s.Float32bits(imag(%s)+0))", g.mathPkg(), fieldName, g.mathPkg(), fieldName), nil
 		case types.Complex128:
